@@ -106,7 +106,7 @@ Lemma ins_asc_In : forall x l r, In r (ins_asc x l) <-> r = x \/ In r l.
 Proof.
   induction l as [|y l IH]; intro r; cbn.
   - intuition.
-  - destruct (r_tsb x <? r_tsb y)%Z; cbn; [intuition|]. rewrite IH. intuition.
+  - destruct (lt_key x y); cbn; [intuition|]. rewrite IH. intuition.
 Qed.
 
 Lemma sort_asc_In : forall l r, In r (sort_asc l) <-> In r l.
@@ -126,7 +126,7 @@ Lemma ins_desc_In : forall x l r, In r (ins_desc x l) <-> r = x \/ In r l.
 Proof.
   induction l as [|y l IH]; intro r; cbn.
   - intuition.
-  - destruct (r_tsb y <? r_tsb x)%Z; cbn; [intuition|]. rewrite IH. intuition.
+  - destruct (lt_key y x); cbn; [intuition|]. rewrite IH. intuition.
 Qed.
 
 Lemma sort_desc_In : forall l r, In r (sort_desc l) <-> In r l.
@@ -158,25 +158,33 @@ Proof.
 Qed.
 
 (* ------------------------------------------------------------------ listing order = submission order *)
-Lemma incrb_app_lt : forall a x l, incrb (a ++ x :: l) = true -> Forall (fun y => (r_tsb y < r_tsb x)%Z) a.
+Lemma lt_key_asym : forall x y, lt_key x y = true -> lt_key y x = false.
+Proof.
+  intros x y H. unfold lt_key in *. apply orb_true_iff in H. apply orb_false_iff. destruct H as [H|H].
+  - apply Z.ltb_lt in H. split; [apply Z.ltb_ge; lia|]. apply andb_false_iff. left. apply Z.eqb_neq. lia.
+  - apply andb_true_iff in H as [H1 H2]. apply Z.eqb_eq in H1. apply N.ltb_lt in H2.
+    split; [apply Z.ltb_ge; lia|]. apply andb_false_iff. right. apply N.ltb_ge. lia.
+Qed.
+
+Lemma incrb_app_lt : forall a x l, incrb (a ++ x :: l) = true -> Forall (fun y => lt_key y x = true) a.
 Proof.
   induction a as [|y a IH]; intros x l H; [constructor|].
   cbn [app incrb] in H. apply andb_true_iff in H as [H1 H2]. constructor.
   - rewrite forallb_app in H1. apply andb_true_iff in H1 as [_ H1]. cbn in H1.
-    apply andb_true_iff in H1 as [H1 _]. now apply Z.ltb_lt.
+    now apply andb_true_iff in H1 as [H1 _].
   - exact (IH x l H2).
 Qed.
 
-Lemma ins_asc_last : forall x acc, Forall (fun y => (r_tsb y < r_tsb x)%Z) acc -> ins_asc x acc = acc ++ [x].
+Lemma ins_asc_last : forall x acc, Forall (fun y => lt_key y x = true) acc -> ins_asc x acc = acc ++ [x].
 Proof.
   induction acc as [|y acc IH]; intro H; [reflexivity|]. inversion H as [|? ? Hy Hr]; subst.
-  cbn [ins_asc app]. destruct (r_tsb x <? r_tsb y)%Z eqn:E; [apply Z.ltb_lt in E; lia|]. now rewrite IH.
+  cbn [ins_asc app]. rewrite (lt_key_asym y x Hy). now rewrite IH.
 Qed.
 
-Lemma ins_desc_first : forall x acc, Forall (fun y => (r_tsb y < r_tsb x)%Z) acc -> ins_desc x acc = x :: acc.
+Lemma ins_desc_first : forall x acc, Forall (fun y => lt_key y x = true) acc -> ins_desc x acc = x :: acc.
 Proof.
   intros x [|y acc] H; [reflexivity|]. inversion H as [|? ? Hy Hr]; subst.
-  cbn [ins_desc]. apply Z.ltb_lt in Hy. now rewrite Hy.
+  cbn [ins_desc]. now rewrite Hy.
 Qed.
 
 Lemma fold_right_rev_left : forall (f : row -> list row -> list row) l,
@@ -233,12 +241,36 @@ Proof.
   now rewrite (sort_asc_incr _ Hm), (sort_desc_incr _ Hm).
 Qed.
 
-(** Without that hypothesis it is false: two rows with equal tsb (what two history add
-    without -t produce: both 0) are listed newest first by the default listing. *)
-Definition tie_rows : list row := [mkrow 1 [97] 0%Z [] []; mkrow 2 [98] 0%Z [] []].
-Lemma tie_listing : db_list tie_rows [] [] [] (mko false false false 20%Z) = rev tie_rows.
+(** the hypothesis in plain terms: rowids increase and tsb never decreases along the table *)
+Lemma forallb_lt_key : forall a t,
+  forallb (fun b => r_id a <? r_id b) t = true -> forallb (fun b => (r_tsb a <=? r_tsb b)%Z) t = true ->
+  forallb (fun b => lt_key a b) t = true.
+Proof.
+  induction t as [|b t IH]; intros H1 H2; [reflexivity|]. cbn [forallb] in *.
+  apply andb_true_iff in H1 as [Ha Hb]. apply andb_true_iff in H2 as [Hc Hd].
+  rewrite (IH Hb Hd), andb_true_r. unfold lt_key. apply Z.leb_le in Hc.
+  destruct (r_tsb a <? r_tsb b)%Z eqn:E; [reflexivity|]. apply Z.ltb_ge in E.
+  assert (r_tsb a = r_tsb b) as -> by lia. now rewrite Z.eqb_refl, Ha.
+Qed.
+
+Lemma incrb_of_table : forall l, ids_incr l = true -> tsb_nondecr l = true -> incrb l = true.
+Proof.
+  induction l as [|a t IH]; intros H1 H2; [reflexivity|]. cbn [ids_incr tsb_nondecr incrb] in *.
+  apply andb_true_iff in H1 as [Ha Hb]. apply andb_true_iff in H2 as [Hc Hd].
+  now rewrite (forallb_lt_key a t Ha Hc), (IH Hb Hd).
+Qed.
+
+Theorem list_order : forall rows p s d o, ids_incr rows = true -> tsb_nondecr rows = true ->
+  db_list rows p s d o =
+  let m := filter (row_matches p s d o) rows in
+  if o_asc o then take_limit (o_limit o) m else rev (take_limit (o_limit o) (rev m)).
+Proof. intros. apply list_in_submission_order. now apply incrb_of_table. Qed.
+
+(** rows with equal tsb (what two history add without -t produce) now list in submission order *)
+Definition tie_rows : list row := [mkrow 1 [97] 0%Z [] []; mkrow 2 [98] 0%Z [] []; mkrow 3 [99] 0%Z [] []].
+Lemma tie_listing : db_list tie_rows [] [] [] (mko false false false 20%Z) = tie_rows.
 Proof. reflexivity. Qed.
-Lemma tie_limit : db_list tie_rows [] [] [] (mko false false false 1%Z) = [mkrow 1 [97] 0%Z [] []].
+Lemma tie_limit : db_list tie_rows [] [] [] (mko false false false 2%Z) = [mkrow 2 [98] 0%Z [] []; mkrow 3 [99] 0%Z [] []].
 Proof. reflexivity. Qed.
 
 (* ------------------------------------------------------------------ LIKE: no false negatives *)
@@ -366,15 +398,28 @@ Proof.
   - rewrite IH, (proc_independent bang stored [] p). now rewrite app_assoc.
 Qed.
 
-(** Recording keeps the hypothesis as long as the clock value of each new row exceeds those stored. *)
-Lemma incrb_snoc : forall l x, incrb l = true -> forallb (fun r => (r_tsb r <? r_tsb x)%Z) l = true ->
-  incrb (l ++ [x]) = true.
+(** Recording keeps the hypothesis: the new rowid exceeds all stored ones (sqlite's allocation),
+    and the clock value of the new row must not be smaller than those stored. *)
+Lemma snoc_forallb : forall (f : row -> row -> bool) l x, 
+  (fix g (l : list row) := match l with [] => true | a :: t => forallb (f a) t && g t end) l = true ->
+  forallb (fun r => f r x) l = true ->
+  (fix g (l : list row) := match l with [] => true | a :: t => forallb (f a) t && g t end) (l ++ [x]) = true.
 Proof.
   induction l as [|y l IH]; intros x H1 H2; [reflexivity|].
-  cbn [incrb] in H1. apply andb_true_iff in H1 as [Ha Hb]. cbn [forallb] in H2. apply andb_true_iff in H2 as [Hc Hd].
-  cbn [app incrb]. rewrite forallb_app, Ha. cbn [forallb andb]. rewrite Hc. cbn [andb]. now apply IH.
+  apply andb_true_iff in H1 as [Ha Hb]. cbn [forallb] in H2. apply andb_true_iff in H2 as [Hc Hd].
+  cbn [app]. rewrite forallb_app, Ha. cbn [forallb andb]. rewrite Hc. cbn [andb]. now apply IH.
 Qed.
 
-Lemma insert_keeps_order : forall rows inp tsb s i, incrb rows = true ->
-  forallb (fun r => (r_tsb r <? tsb)%Z) rows = true -> incrb (db_insert rows inp tsb s i) = true.
-Proof. intros. unfold db_insert. now apply incrb_snoc. Qed.
+Lemma next_id_above : forall rows, forallb (fun r => r_id r <? next_id rows) rows = true.
+Proof.
+  intro rows. apply forallb_forall. intros r H. apply N.ltb_lt. now apply next_id_fresh.
+Qed.
+
+Lemma insert_keeps_order : forall rows inp tsb s i, ids_incr rows = true -> tsb_nondecr rows = true ->
+  forallb (fun r => (r_tsb r <=? tsb)%Z) rows = true ->
+  ids_incr (db_insert rows inp tsb s i) = true /\ tsb_nondecr (db_insert rows inp tsb s i) = true.
+Proof.
+  intros rows inp tsb s i H1 H2 H3. unfold db_insert. split.
+  - apply (snoc_forallb (fun a b => r_id a <? r_id b) rows _ H1). cbn [r_id]. apply next_id_above.
+  - apply (snoc_forallb (fun a b => (r_tsb a <=? r_tsb b)%Z) rows _ H2). exact H3.
+Qed.
